@@ -101,6 +101,55 @@ AddOp(a, b, w) ==
   ELSE Ok(Hist(a.edges, AddB(a.bins, b.bins, Len(a.edges), w), RAdd(a.oor, RMul(b.oor, w)), NoneR))
 
 (***************************************************************************)
+(* Approximate equality of edges in add: "Histograms must have the same    *)
+(* edges.  They are compared approximately using math.isclose with         *)
+(* edges_abs_tol and edges_rel_tol tolerance levels" (defaults 0.0, 1e-9). *)
+(*                                                                         *)
+(* A tolerance: [kind, rel, abs].  kind = "default": add is called without *)
+(* tolerance arguments (rel = 1e-9, abs = 0; 1e-9 does not fit TLC's       *)
+(* integers together with the edges, see CloseRule); otherwise rel and abs *)
+(* are passed explicitly and are exact rationals (powers of two, so that   *)
+(* the boundary "difference = tolerance" is exact in floating point too).  *)
+(* The other histogram has the edges of this one except for ONE edge x     *)
+(* (pert = [axis, pos, kind, amt]):                                        *)
+(*   kind "none": equal edges;  "grid": y = x + amt  (a large relative     *)
+(*   amount);  "rel": y = x * (1 - amt * eps), eps the relative tolerance  *)
+(*   in force.                                                             *)
+(* Everything is relative to the magnitude of the edges: the harness       *)
+(* multiplies all edges and abs by powers of two from 1e-300 to 1e300.     *)
+(***************************************************************************)
+RAbs(p) == <<Abs(p[1]), p[2]>>
+RSub(p, q) == RAdd(p, RMul(q, RI(-1)))
+RLe(p, q) == p[1] * q[2] <= q[1] * p[2]
+RMax(p, q) == IF RLe(p, q) THEN q ELSE p
+\* lena.math.utils._isclose, as written there
+IsCloseOp(x, y, rel, abs) == RLe(RAbs(RSub(x, y)), RMax(RMul(rel, RMax(RAbs(x), RAbs(y))), abs))
+\* its documentation: "rel_tol ... is multiplied by the greater of the magnitudes of the two arguments ...
+\* abs_tol is the absolute tolerance.  If the difference is less than either of those tolerances, the values
+\* are considered equal"
+DocClose(x, y, rel, abs) == LET d == RAbs(RSub(x, y)) IN
+                            \/ RLe(d, RMul(rel, RAbs(x))) \/ RLe(d, RMul(rel, RAbs(y))) \/ RLe(d, abs)
+NoTol == [kind |-> "default", rel |-> NoneR, abs |-> RI(0)]
+NoPert == [axis |-> 0, pos |-> 0, kind |-> "none", amt |-> RI(0)]
+Eps == <<1, 1024>>
+PertY(x, pert, tol) == IF pert.kind = "grid" THEN RAdd(RI(x), pert.amt)
+                       ELSE RMul(RI(x), RSub(RI(1), RMul(pert.amt, tol.rel)))        \* "rel", explicit rel
+\* The decision for a relative tolerance eps that is not computed with: a grid amount (>= 1/8 on edges of
+\* magnitude <= 20, i.e. a relative difference > 6e-3) is never within eps <= 1e-3; for y = x (1 - t eps) the
+\* difference t eps |x| is within eps max(|x|, |y|) = eps |x| iff t <= 1 (or x = 0).  HistOps.tla checks the
+\* rule against the exact formula for the explicit eps = 1/1024 (RuleAgrees); for 1e-9 it holds a fortiori.
+CloseRule(x, pert) == IF pert.kind = "grid" THEN FALSE ELSE (x = 0 \/ RLe(pert.amt, RI(1)))
+PertClose(x, pert, tol) ==
+  IF pert.kind = "none" THEN TRUE
+  ELSE IF tol.kind = "default" THEN CloseRule(x, pert)
+  ELSE IsCloseOp(RI(x), PertY(x, pert, tol), tol.rel, tol.abs)
+\* a.add(b, w, edges_abs_tol, edges_rel_tol) where b has the edges of a but for the perturbed one
+AddTolOp(a, b, w, pert, tol) ==
+  LET x == IF pert.kind = "none" THEN 0 ELSE a.edges[pert.axis][pert.pos] IN
+  IF ~PertClose(x, pert, tol) THEN Raise("LenaValueError", Hist(<<>>, <<>>, NoneR, NoneR))
+  ELSE Ok(Hist(a.edges, AddB(a.bins, b.bins, Len(a.edges), w), RAdd(a.oor, RMul(b.oor, w)), NoneR))
+
+(***************************************************************************)
 (* graph.scale.  A graph: cols (columns of rationals), dim (number of      *)
 (* coordinates), errs (for every error field the index c of its coordinate *)
 (* and its tail t), scale.                                                 *)
